@@ -12,8 +12,9 @@ import time
 import traceback
 
 NSHARDS = int(os.environ.get("XV_SHARDS", "16"))
-EVIDENCE_DIR = os.path.join(env.VERIF, "evidence")
-REPLAY_DIR = os.path.join(env.VERIF, "replays")
+_OUT = os.environ.get("XV_OUT") or env.VERIF  # XV_OUT: scratch output dir for sensitivity runs
+EVIDENCE_DIR = os.path.join(_OUT, "evidence")
+REPLAY_DIR = os.path.join(_OUT, "replays")
 KNOWN_FILE = os.path.join(env.VERIF, "known_findings.json")
 
 
